@@ -98,6 +98,27 @@ def accept_lines(chk, quick):
         "non_numeric_keys": {"b": {"type": "file", "name": "f", "parent_directory_ref": "a"}, "a": {"type": "directory", "path": "/"}},
         "self_and_mutual": {"0": {"type": "process", "pid": 1, "child_refs": ["1"]}, "1": {"type": "process", "pid": 2, "parent_ref": "0"}},
     }
+    # valid hosts carrying extensions the harness registered (two toplevel-property extensions A and B, a property extension C) and predefined ones, of different kinds
+    # in one object, in every document order: the host part is judged by the frozen model, the extension part is valid by the registered definitions
+    custom_types()
+    A, B, C = ("extension-definition--%s-1111-4111-8111-111111111111" % (x * 8) for x in "abc")
+    tl = {"extension_type": "toplevel-property-extension"}
+    pc = {"extension_type": "property-extension", "depth": 1}
+    g21 = schema.Gen("2.1", rng)
+    ident = g21.instance("objects:identity", "min")
+    fil = dict(g21.instance("observables:file", "min"))
+    fil.pop("extensions", None)
+    for how, top, exts in (("A", {"rank": 1}, [(A, tl)]), ("C_then_A", {"rank": 1}, [(C, pc), (A, tl)]), ("A_then_C", {"rank": 1}, [(A, tl), (C, pc)]),
+                           ("C_A_B", {"rank": 1, "weight": 2, "shade": "red"}, [(C, pc), (A, tl), (B, tl)]), ("A_C_B", {"rank": 1, "weight": 2, "shade": "red"}, [(A, tl), (C, pc), (B, tl)]),
+                           ("B_A", {"rank": 1, "weight": 2, "shade": "blue"}, [(B, tl), (A, tl)])):
+        d = dict(ident, **top)
+        d["extensions"] = {k: dict(x) for k, x in exts}
+        for wrap in ("plain", "bundle"):
+            lines.append(accept_one("2.1", "objects:identity", "registered_extensions:" + how, d, wrap, core=ident))
+    for how, exts in (("predefined_then_A", [("ntfs-ext", {"sid": "s"}), (A, tl)]), ("A_then_predefined", [(A, tl), ("ntfs-ext", {"sid": "s"})])):
+        d = dict(fil, rank=3)
+        d["extensions"] = {k: dict(x) for k, x in exts}
+        lines.append(accept_one("2.1", "observables:file", "registered_extensions:" + how, d, "plain", core=dict(fil, extensions={"ntfs-ext": {"sid": "s"}})))
     for how, objs in containers.items():
         d = dict(od, objects=objs)
         lines.append(accept_one("2.0", "objects:observed-data", "container:" + how, d, "plain"))
@@ -194,8 +215,9 @@ def constraint_boundaries(g, key, base, t):
     return out
 
 
-def accept_one(v, key, how, d, wrap):
-    line = {"kind": "accept", "v": v, "key": key, "how": how, "wrap": wrap, "doc": lex.doc(d, v, key), "ok": False, "exc": "none", "preserved": False, "extra": [], "input": d}
+def accept_one(v, key, how, d, wrap, core=None):
+    """core: the part of d that the frozen model can judge (d without material of extensions the harness registered, whose validity is by their registered definitions)"""
+    line = {"kind": "accept", "v": v, "key": key, "how": how, "wrap": wrap, "doc": lex.doc(d if core is None else core, v, key), "ok": False, "exc": "none", "preserved": False, "extra": [], "input": d}
     try:
         if wrap == "plain":
             obj = parse(d, v)
